@@ -33,6 +33,7 @@ func init() {
 }
 
 func runC04(c *Ctx) {
+	c01P = c.P
 	c.NotArmed("C04.R1(b,c)", "permit hand-off around the blocking dispatch/wait and the goroutine body's release are C02.R4; discharged under C02, not duplicated here")
 	c.NotArmed("C04.R4.postcopy-after-successors", "same obligation as C02.R1 (wait-before-push); discharged under C02")
 	c04R1(c)
@@ -86,24 +87,63 @@ func c04BoolStores(ss []*ssa.Store, want bool) (match []ssa.Instruction, other i
 func c04R1(c *Ctx) {
 	const R = "C04.R1.permit-typestate"
 	c.Expect(R, 8)
-	ended := c01FieldOf(c.P, "internal/syncutil", "LimitedRegion", "ended")
 	Start := c.P.Fn("internal/syncutil", "LimitedRegion.Start")
 	End := c.P.Fn("internal/syncutil", "LimitedRegion.End")
 	New := c.P.Fn("internal/syncutil", "LimitRegion")
-	if ended == nil || Start == nil || End == nil || New == nil {
-		c.LostAnchor(R, "~/internal/syncutil.LimitedRegion.{ended,Start,End} / LimitRegion")
+	LR := c.P.Named("internal/syncutil", "LimitedRegion")
+	if Start == nil || End == nil || New == nil || LR == nil {
+		c.LostAnchor(R, "~/internal/syncutil.LimitedRegion.{Start,End} / LimitRegion")
 		return
+	}
+	// the state: the region's only bool field, whatever it is called; its polarity ("holds a permit" <=> field == held)
+	// is the constant Start stores after acquiring
+	var state *types.Var
+	if st, ok := LR.Underlying().(*types.Struct); ok {
+		for i := 0; i < st.NumFields(); i++ {
+			if b, isB := st.Field(i).Type().Underlying().(*types.Basic); isB && b.Kind() == types.Bool {
+				if state != nil {
+					c.Undecided(R, "~/internal/syncutil.LimitedRegion|state-field", Start.Pos(), "LimitedRegion has several bool fields; which one records the permit cannot be told")
+					return
+				}
+				state = st.Field(i)
+			}
+		}
+	}
+	if state == nil {
+		c.Undecided(R, "~/internal/syncutil.LimitedRegion|state-field", Start.Pos(), "LimitedRegion has no bool field recording whether it holds a permit")
+		return
+	}
+	held, heldKnown := false, false
+	for _, st := range c04FieldStores(Start, state) {
+		if k, ok := st.Val.(*ssa.Const); ok && k.Value != nil {
+			if heldKnown && held != boolConst(k) {
+				c.Undecided(R, FnName(Start)+"|state-polarity", st.Pos(), "Start stores both values into the state field")
+				return
+			}
+			held, heldKnown = boolConst(k), true
+		}
+	}
+	if !heldKnown {
+		c.Violation(R, FnName(Start)+"|successful-acquire-marks-held", Start.Pos(), "Start never records that the region now holds a permit: End would not release it")
+		return
+	}
+	// edges on which the region holds / does not hold a permit
+	edges := func(fn *ssa.Function) (heldE, freeE []Edge) {
+		t, f := BoolTests(fn, c04FieldValues(fn, state))
+		if held {
+			return t, f
+		}
+		return f, t
 	}
 	// End
 	{
 		en := FnName(End)
-		endedT, endedF := BoolTests(End, c04FieldValues(End, ended))
-		_ = endedT
+		heldE, _ := edges(End)
 		rels := CallsTo(End, nRelease)
-		setTrue, other := c04BoolStores(c04FieldStores(End, ended), true)
-		ok := len(rels) > 0 && len(endedF) > 0
+		setFree, other := c04BoolStores(c04FieldStores(End, state), !held)
+		ok := len(rels) > 0 && len(heldE) > 0
 		for _, r := range rels {
-			if !MustPass(r.(ssa.Instruction), newCut().Edges(endedF...)) {
+			if !MustPass(r.(ssa.Instruction), newCut().Edges(heldE...)) {
 				ok = false
 			}
 			if k, isK := constInt(r.Common().Args[len(r.Common().Args)-1]); !isK || k != 1 {
@@ -111,36 +151,36 @@ func c04R1(c *Ctx) {
 			}
 		}
 		c.Check(R, en+"|release-only-while-held", End.Pos(), ok,
-			ifelse(ok, "Release(1) runs only on the edge where the region is not ended", "End can release a permit the region does not hold (double release raises the concurrency bound)"))
-		ok = len(setTrue) > 0 && other == 0
+			ifelse(ok, "Release(1) runs only on the edge where the region holds a permit", "End can release a permit the region does not hold (double release raises the concurrency bound)"))
+		ok = len(setFree) > 0 && other == 0
 		for _, r := range rels {
 			for _, ret := range Returns(End) {
-				if Reachable(r.(ssa.Instruction), ret) && !MustPassBetween(r.(ssa.Instruction), ret, newCut().Instr(setTrue...)) {
+				if Reachable(r.(ssa.Instruction), ret) && !MustPassBetween(r.(ssa.Instruction), ret, newCut().Instr(setFree...)) {
 					ok = false
 				}
 			}
 		}
 		c.Check(R, en+"|release-marks-ended", End.Pos(), ok,
-			ifelse(ok, "after Release the region is marked ended on every path", "after Release the region may still look held: a later End releases again"))
+			ifelse(ok, "after Release the region is marked as not holding on every path", "after Release the region may still look held: a later End releases again"))
 		ok = true
-		for _, s := range setTrue {
+		for _, s := range setFree {
 			if !MustPass(s, newCut().Calls(rels)) {
 				ok = false
 			}
 		}
 		c.Check(R, en+"|ended-only-after-release", End.Pos(), ok,
-			ifelse(ok, "the region is marked ended only after releasing", "the region can be marked ended without releasing its permit (the permit leaks; copies starve)"))
+			ifelse(ok, "the region is marked as not holding only after releasing", "the region can be marked as not holding without releasing its permit (the permit leaks; copies starve)"))
 	}
 	// Start
 	{
 		sn := FnName(Start)
-		endedT, _ := BoolTests(Start, c04FieldValues(Start, ended))
+		_, freeE := edges(Start)
 		acqs := CallsTo(Start, nAcquire)
-		setFalse, other := c04BoolStores(c04FieldStores(Start, ended), false)
-		ok := len(acqs) > 0 && len(endedT) > 0
+		setHeld, other := c04BoolStores(c04FieldStores(Start, state), held)
+		ok := len(acqs) > 0 && len(freeE) > 0
 		var nilE []Edge
 		for _, a := range acqs {
-			if !MustPass(a.(ssa.Instruction), newCut().Edges(endedT...)) {
+			if !MustPass(a.(ssa.Instruction), newCut().Edges(freeE...)) {
 				ok = false
 			}
 			if k, isK := constInt(a.Common().Args[len(a.Common().Args)-1]); !isK || k != 1 {
@@ -152,13 +192,13 @@ func c04R1(c *Ctx) {
 			}
 		}
 		c.Check(R, sn+"|acquire-only-while-ended", Start.Pos(), ok,
-			ifelse(ok, "Acquire(1) runs only on the edge where the region is ended", "Start can acquire a second permit while already holding one (the permit leaks; the bound shrinks to deadlock)"))
+			ifelse(ok, "Acquire(1) runs only on the edge where the region holds no permit", "Start can acquire a second permit while already holding one (the permit leaks; the bound shrinks to deadlock)"))
 		for _, a := range acqs {
 			r := ErrFlow(a, ErrFlowOpts{})
 			c.Check(R, sn+"|acquire-error-returned", a.Pos(), r.OK, r.How+r.Detail)
 		}
-		ok = len(setFalse) > 0 && other == 0 && len(nilE) > 0
-		for _, s := range setFalse {
+		ok = len(setHeld) > 0 && other == 0 && len(nilE) > 0
+		for _, s := range setHeld {
 			if !MustPass(s, newCut().Edges(nilE...)) {
 				ok = false
 			}
@@ -168,21 +208,21 @@ func c04R1(c *Ctx) {
 		ok = len(nilE) > 0
 		for _, e := range nilE {
 			for _, ret := range Returns(Start) {
-				if reach(e.To, 0, ret, newCut().Instr(setFalse...)) {
+				if reach(e.To, 0, ret, newCut().Instr(setHeld...)) {
 					ok = false
 				}
 			}
 		}
 		c.Check(R, sn+"|successful-acquire-marks-held", Start.Pos(), ok,
-			ifelse(ok, "after a successful Acquire the region is marked held on every path", "after a successful Acquire the region may still look ended: its permit is never released"))
+			ifelse(ok, "after a successful Acquire the region is marked held on every path", "after a successful Acquire the region may still look released: its permit is never released"))
 	}
-	// initial state
+	// initial state: not holding (an omitted field is false)
 	{
-		ss := c04FieldStores(New, ended)
-		tr, other := c04BoolStores(ss, true)
-		ok := len(tr) > 0 && other == 0
+		ss := c04FieldStores(New, state)
+		free, other := c04BoolStores(ss, !held)
+		ok := other == 0 && (len(free) > 0 || (len(ss) == 0 && held))
 		c.Check(R, FnName(New)+"|starts-released", New.Pos(), ok,
-			ifelse(ok, "a new region starts in the ended (no permit) state", "a new region starts as if it held a permit: Start never acquires and the limiter bounds nothing"))
+			ifelse(ok, "a new region starts without a permit", "a new region starts as if it held a permit: Start never acquires and the limiter bounds nothing"))
 	}
 }
 
@@ -391,6 +431,32 @@ func c04R3(c *Ctx) {
 		// defaulting: a positive test edge or a store of a positive constant precedes — in F on the option field,
 		// or inside the helper on its parameter
 		okPos := MustPass(call.(ssa.Instruction), positiveCut(F, c04FieldValues(F, conc), c04FieldStores(F, conc)))
+		if !okPos && pt.h == nil {
+			// the size goes through a local: every alternative is a positive constant or a value tested positive
+			okPos = true
+			for _, alt := range c03Alternatives(strip(pt.size)) {
+				v := strip(alt.Val)
+				if k, isK := constInt(v); isK && k >= 1 {
+					continue
+				}
+				vals := Aliases(v)
+				if c01IsFieldValue(v, conc) {
+					for fvv := range c04FieldValues(F, conc) {
+						vals[fvv] = true
+					}
+				}
+				pc := positiveCut(F, vals, c04FieldStores(F, conc))
+				guarded := MustPass(call.(ssa.Instruction), pc)
+				for _, e := range alt.Edges {
+					if c01MustPassEdge(e, pc) {
+						guarded = true
+					}
+				}
+				if !guarded {
+					okPos = false
+				}
+			}
+		}
 		if !okPos && pt.h != nil {
 			prm := pt.h.Params[pt.hp]
 			pc := positiveCut(pt.h, Aliases(prm), nil)
@@ -417,7 +483,24 @@ func c04R3(c *Ctx) {
 		// with a limiter parameter: only when none was handed in
 		for _, p := range F.Params {
 			if strings.HasSuffix(p.Type().String(), "semaphore.Weighted") {
-				nilE, _, _ := NilTests(F, Aliases(p))
+				vals := Aliases(p)
+				// the parameter may be parked in a field of a state struct and tested there
+				AllInstrs(F, func(in ssa.Instruction) {
+					st, isStore := in.(*ssa.Store)
+					if !isStore || !vals[st.Val] {
+						return
+					}
+					if fa, isFA := st.Addr.(*ssa.FieldAddr); isFA {
+						AllInstrs(F, func(in2 ssa.Instruction) {
+							if ld, isLoad := in2.(*ssa.UnOp); isLoad && ld.Op == token.MUL {
+								if fa2, ok := ld.X.(*ssa.FieldAddr); ok && fa2.X == fa.X && fa2.Field == fa.Field {
+									vals[ld] = true
+								}
+							}
+						})
+					}
+				})
+				nilE, _, _ := NilTests(F, vals)
 				if why == "" && (len(nilE) == 0 || !MustPass(call.(ssa.Instruction), newCut().Edges(nilE...))) {
 					why = "a limiter handed in by the caller is replaced by a fresh one (the roots of an extended copy would not share the bound)"
 				}
@@ -448,6 +531,18 @@ func c04R3(c *Ctx) {
 			srcs, carried := c01CarriedSources(c.P, arg)
 			if !carried {
 				ok, why = false, "the traversal dispatches successors with a limiter that is not state carried from the enclosing copy call"
+				continue
+			}
+			// the initial dispatch reads the very same carrier field: same state
+			sameCarrier := false
+			if ap, isPath := c01ValuePath(strip(arg)); isPath && len(ap.Vars) > 0 {
+				for _, iv := range initial {
+					if ip, ok := c01ValuePath(strip(iv)); ok && len(ip.Vars) > 0 && ip.last() == ap.last() {
+						sameCarrier = true
+					}
+				}
+			}
+			if sameCarrier {
 				continue
 			}
 			// every value the carrier can hold is (one of) the value(s) the initial dispatch used
@@ -515,7 +610,7 @@ func c04AnyReach(from, to []ssa.Instruction) (ssa.Instruction, ssa.Instruction) 
 
 // c04NilEdgesOfField: edges where the callback field fv is nil.
 func c04NilEdgesOfField(fn *ssa.Function, fv *types.Var) []Edge {
-	ne, _, _ := NilTests(fn, c04FieldValues(fn, fv))
+	ne, _, _ := NilTests(fn, c01CallbackValues(fn, fv))
 	return ne
 }
 
@@ -796,54 +891,99 @@ func c04R4(c *Ctx) {
 		if ok {
 			for _, m := range mounts {
 				args := m.Common().Args
+				G, recv := c01FuncOfValue(args[len(args)-1])
+				if G == nil || len(G.Blocks) == 0 {
+					ok = false
+					continue
+				}
 				var getter *ssa.MakeClosure
 				for _, r := range Roots(args[len(args)-1]) {
 					if mc, isMC := r.(*ssa.MakeClosure); isMC {
 						getter = mc
 					}
 				}
-				if getter == nil {
-					ok = false
-					continue
-				}
-				G := getter.Fn.(*ssa.Function)
-				// the fallback flag: a captured bool the getter sets to a constant K on entry; "fell back" <=> flag == K
-				var flag *ssa.Alloc
-				fellBack := true
-				for i, fv := range G.FreeVars {
-					if b, isBool := derefType(fv.Type()).Underlying().(*types.Basic); isBool && b.Kind() == types.Bool {
-						for _, r := range *fv.Referrers() {
-							if s, isStore := r.(*ssa.Store); isStore && s.Addr == fv && s.Block() == G.Blocks[0] {
-								if k, isK := s.Val.(*ssa.Const); isK && k.Value != nil {
-									if a, isAlloc := getter.Bindings[i].(*ssa.Alloc); isAlloc {
-										flag, fellBack = a, boolConst(k)
+				// the fallback flag: a bool the getter sets to a constant K on entry — a captured variable, or a field of
+				// the getter's receiver (method value of a per-attempt state struct); "fell back" <=> flag == K
+				fellBack, flagFound := true, false
+				loads := map[ssa.Value]bool{}
+				for _, in := range G.Blocks[0].Instrs {
+					st, isStore := in.(*ssa.Store)
+					if !isStore {
+						continue
+					}
+					k, isK := st.Val.(*ssa.Const)
+					if !isK || k.Value == nil {
+						continue
+					}
+					if b, isBool := k.Type().Underlying().(*types.Basic); !isBool || b.Kind() != types.Bool {
+						continue
+					}
+					switch addr := st.Addr.(type) {
+					case *ssa.FreeVar:
+						if getter == nil || recv != nil {
+							continue
+						}
+						for i, fv := range G.FreeVars {
+							if fv != addr {
+								continue
+							}
+							cell, isAlloc := getter.Bindings[i].(*ssa.Alloc)
+							if !isAlloc {
+								continue
+							}
+							flagFound, fellBack = true, boolConst(k)
+							// before Mount the flag holds the opposite value
+							for _, rs := range ReachingStores(cell, m.(ssa.Instruction)) {
+								if rs == nil {
+									if !fellBack {
+										ok = false // zero value false == K
 									}
+									continue
+								}
+								if k2, isK2 := rs.Val.(*ssa.Const); !isK2 || k2.Value == nil || boolConst(k2) == fellBack {
+									ok = false
+								}
+							}
+							for _, r := range *cell.Referrers() {
+								if ld, isLoad := r.(*ssa.UnOp); isLoad && ld.Op == token.MUL {
+									loads[ld] = true
 								}
 							}
 						}
-					}
-				}
-				if flag == nil {
-					ok = false
-					continue
-				}
-				// before Mount the flag holds the opposite value
-				for _, rs := range ReachingStores(flag, m.(ssa.Instruction)) {
-					if rs == nil {
-						if !fellBack {
+					case *ssa.FieldAddr:
+						if recv == nil || len(G.Params) == 0 || addr.X != ssa.Value(G.Params[0]) {
+							continue
+						}
+						flagFound, fellBack = true, boolConst(k)
+						// in F: the same field of the bound receiver
+						nStores := 0
+						AllInstrs(F, func(in2 ssa.Instruction) {
+							switch x := in2.(type) {
+							case *ssa.Store:
+								if fa, isFA := x.Addr.(*ssa.FieldAddr); isFA && fa.X == recv && fa.Field == addr.Field {
+									nStores++
+									if k2, isK2 := x.Val.(*ssa.Const); !isK2 || k2.Value == nil || boolConst(k2) == fellBack || !Dominates(x, m.(ssa.Instruction)) {
+										ok = false
+									}
+								}
+							case *ssa.UnOp:
+								if fa, isFA := x.X.(*ssa.FieldAddr); isFA && x.Op == token.MUL && fa.X == recv && fa.Field == addr.Field {
+									loads[x] = true
+								}
+							}
+						})
+						if nStores == 0 && !fellBack {
 							ok = false // zero value false == K
 						}
-						continue
-					}
-					if k, isK := rs.Val.(*ssa.Const); !isK || k.Value == nil || boolConst(k) == fellBack {
-						ok = false
+						// a fresh state per attempt
+						if a, isAlloc := recv.(*ssa.Alloc); !isAlloc || !Dominates(a, m.(ssa.Instruction)) || !loop.Contains(a) {
+							ok = false
+						}
 					}
 				}
-				loads := map[ssa.Value]bool{}
-				for _, r := range *flag.Referrers() {
-					if ld, isLoad := r.(*ssa.UnOp); isLoad && ld.Op == token.MUL {
-						loads[ld] = true
-					}
+				if !flagFound {
+					ok = false
+					continue
 				}
 				te, fe := BoolTests(F, loads)
 				if !fellBack {
